@@ -107,14 +107,56 @@ def reference_aliases(F, f):
     return out
 
 
-def table_of_call(F, n, aliases=None):
-    """If call node n is a member call on a namespace-scope table (directly or through a local reference to it), return that variable."""
+_CALLSITES = {}
+
+
+def call_sites(F):
+    """callee id -> [call nodes] over all library bodies (for tables handed to a local lambda / helper as an argument)."""
+    key = id(F)
+    if key not in _CALLSITES:
+        sites = {}
+        for f in F.fns.values():
+            if "body" not in f:
+                continue
+
+            def visit(n):
+                if n.get("k") in ("call", "ctor") and "f" in n:
+                    sites.setdefault(n["f"], []).append(n)
+            cg.walk(f.get("body"), visit)
+        _CALLSITES.clear()
+        _CALLSITES[key] = sites
+    return _CALLSITES[key]
+
+
+def table_of_call(F, n, aliases=None, owner=None):
+    """If call node n is a member call on a namespace-scope table - directly, through a local reference to it, or through a
+    reference parameter of `owner` that every call site of `owner` binds to such a table - return that variable (the
+    first one; all of them must be total for R1/R2, see tables_of_call)."""
+    ts = tables_of_call(F, n, aliases, owner)
+    return ts[0] if ts else None
+
+
+def tables_of_call(F, n, aliases=None, owner=None):
     o = _strip(n.get("obj"))
     if isinstance(o, dict) and o.get("k") == "gvar":
-        return F.vars.get(o["v"])
+        v = F.vars.get(o["v"])
+        return [v] if v is not None else []
     if isinstance(o, dict) and o.get("k") == "local" and aliases and o.get("i") in aliases:
-        return F.vars.get(aliases[o["i"]])
-    return None
+        v = F.vars.get(aliases[o["i"]])
+        return [v] if v is not None else []
+    if isinstance(o, dict) and o.get("k") == "parm" and owner is not None and o.get("fn", owner["id"]) == owner["id"]:
+        out = []
+        sites = call_sites(F).get(owner["id"], [])
+        for c in sites:
+            args = c.get("a", [])
+            if o["i"] >= len(args):
+                return []
+            a = _strip(args[o["i"]])
+            if not (isinstance(a, dict) and a.get("k") == "gvar" and a["v"] in F.vars):
+                return []
+            out.append(F.vars[a["v"]])
+        return out
+    return []
 
 
 def run(chk):
@@ -183,8 +225,7 @@ def run(chk):
             for n, _ in calls:
                 g = F.fns.get(n["f"])
                 if g is not None and g["sname"] in ("end", "cend"):
-                    v = table_of_call(F, n, aliases)
-                    if v is not None:
+                    for v in tables_of_call(F, n, aliases, f):
                         checked_tables.add(v["id"])
             opt_tested = any(F.fns.get(n["f"], {}).get("sname") in ("has_value", "operator bool") and "std::optional<" in F.fns.get(n["f"], {}).get("qname", "") for n, _ in calls)
             for n, _ in calls:
@@ -194,6 +235,7 @@ def run(chk):
                         controls["optional_deref"] += 1
                     else:
                         chk.violated("R9", "%s: optional dereference" % f["name"], "%s on a std::optional that this function never tests: undefined behaviour when it is empty" % g["sname"], loc)
+            checked_any_end = any(F.fns.get(n["f"], {}).get("sname") in ("end", "cend") for n, _ in calls)
             iter_derefs = any(F.fns.get(n["f"], {}).get("sname") in ("operator->", "operator*") and "iterator" in F.fns.get(n["f"], {}).get("qname", "") for n, _ in calls)
             for n, guarded in calls:
                 g = F.fns.get(n["f"])
@@ -204,19 +246,25 @@ def run(chk):
                 gq = g.get("qname", g["name"])
                 inst = "%s -> %s" % (f["name"], re.sub(r"<.*", "<..>", gq) + "::" + g["sname"] if "::" + g["sname"] not in gq else re.sub(r"<.*>", "<..>", gq))
                 # R1: table reads
-                v = table_of_call(F, n, aliases)
+                tabs_here = tables_of_call(F, n, aliases, f)
+                v = tabs_here[0] if tabs_here else None
+                is_map_lookup = g["sname"] in ("find", "at") and re.match(r"std::(unordered_)?map<", gq or "")
                 if v is not None and g["sname"] in ("find", "at"):
-                    unchecked = g["sname"] == "at" or (v["id"] not in checked_tables and iter_derefs)
+                    unchecked = g["sname"] == "at" or (not all(t["id"] in checked_tables for t in tabs_here) and iter_derefs)
                     if unchecked:
-                        ok, tw = table_total(v)
-                        if ok is True:
-                            chk.holds("R1", "%s reads %s" % (f["name"], v["name"]), "unchecked %s; %s" % (g["sname"], tw), loc)
-                        elif ok is False:
-                            chk.violated("R1", "%s reads %s" % (f["name"], v["name"]), "unchecked %s but %s" % (g["sname"], tw), loc)
-                        else:
-                            chk.inconclusive("R1", "%s reads %s" % (f["name"], v["name"]), tw, loc)
+                        for t in tabs_here:
+                            ok, tw = table_total(t)
+                            if ok is True:
+                                chk.holds("R1", "%s reads %s" % (f["name"], t["name"]), "unchecked %s; %s" % (g["sname"], tw), loc)
+                            elif ok is False:
+                                chk.violated("R1", "%s reads %s" % (f["name"], t["name"]), "unchecked %s but %s" % (g["sname"], tw), loc)
+                            else:
+                                chk.inconclusive("R1", "%s reads %s" % (f["name"], t["name"]), tw, loc)
                     else:
                         chk.holds("R1", "%s reads %s" % (f["name"], v["name"]), "checked find (compared with end())", loc, nontrivial=False)
+                elif is_map_lookup and not is_control and (g["sname"] == "at" or (iter_derefs and not checked_any_end)) and not guarded:
+                    chk.violated("R1", "%s: lookup in an unknown map" % f["name"],
+                                 "unchecked %s on a map that is not one of the library's total tables (nor a parameter that every caller binds to one)" % g["sname"], loc)
                 elif g["sname"] == "find" and is_control and "map<" in gq:
                     controls["unchecked"] += 1
                 # R6: element access must be in bounds
@@ -261,11 +309,11 @@ def run(chk):
                     discharged = None
                     if guarded:
                         discharged = "inside try { } catch (...) that does not rethrow"
-                    elif g["sname"] == "at" and v is not None and table_total(v)[0] is True:
-                        discharged = "key always present: " + table_total(v)[1]
+                    elif g["sname"] == "at" and tabs_here and all(table_total(t)[0] is True for t in tabs_here):
+                        discharged = "key always present: " + table_total(tabs_here[0])[1]
                     elif g["sname"] == "operator()" and "std::function" in gq:
                         # the std::function comes out of a conversion table lookup in the same function
-                        tabs = [table_of_call(F, m, aliases) for m, _ in calls if table_of_call(F, m, aliases) is not None]
+                        tabs = [t for m, _ in calls for t in tables_of_call(F, m, aliases, f)]
                         tabs = [t for t in tabs if "function<" in F.T(t["t"])]
                         if tabs and all(table_total(t)[0] is True for t in tabs):
                             discharged = "target read from total table(s) of function references: %s" % ", ".join(sorted({re.sub(r"<.*", "", t["name"]) for t in tabs}))
@@ -278,6 +326,8 @@ def run(chk):
                 k = n.get("k")
                 if k == "throw" and not is_control:
                     chk.violated("R2", "%s: throw" % f["name"], "the library itself throws an exception", loc)
+                if k == "cast" and n.get("nttp"):
+                    return      # the compiler's own conversion of a non-type template argument (a converted constant expression)
                 if k == "cast" and n.get("ck") in ("IntegralCast",) and F.T(n.get("t", -1)) and strip_cvref(F.T(n["t"])) in F.enums or \
                         (k == "cast" and n.get("ck") == "IntegralCast" and strip_cvref(F.T(n.get("t", -1)) or "").startswith("phq_verif_control::E")):
                     if is_control:
@@ -346,6 +396,8 @@ def run(chk):
                 g = F.fns.get(n.get("f"))
                 o = n.get("obj")
                 if g is not None and g.get("kind") == "method" and not g.get("static") and isinstance(o, dict):
+                    if g.get("sname") in ("operator*", "operator->", "get") and re.search(r"iterator|reference_wrapper|_ptr<", g.get("qname", "")):
+                        return []      # dereferencing a temporary iterator / handle yields a reference to the pointee, which outlives it
                     return [o] if o.get("mat") == "tmp" else []
                 out = [a for a in n.get("a", []) if isinstance(a, dict) and a.get("mat") == "tmp"]
                 if isinstance(o, dict) and o.get("mat") == "tmp":
